@@ -37,11 +37,18 @@ G17_unresponsiveCostsOneInterval(e, ord) ==
 G17_honestFailure(e, ord) ==
   \* when no connection can have been established the error is one of the attempts' errors, with or without a deadline
   e.res # "ok" => (e.res = "err" /\ ((ord # <<>> /\ (e.T = 0 \/ AcceptKeys(ord) = {})) => e.kind \in {"Io:ConnectionRefused", "Io:TimedOut"}))
-HGuards == {"G17_succeedsIffSomeAccepts", "G17_winnerAccepted", "G17_attemptOrder", "G17_unresponsiveCostsOneInterval", "G17_honestFailure"}
+\* "succeeds iff some address accepts BEFORE ITS ATTEMPT TIMES OUT", seen from the listeners: under an overall deadline
+\* shorter than one race interval an attempt started after an unresponsive address has no time left - it times out at
+\* once and no listener ever sees a connection (the outcome of send() alone would hide a connection made too late,
+\* because the request fails on its deadline anyway)
+G17_noConnectionAfterDeadline(e, ord) == (e.T > 0 /\ ~e.expired /\ ~EarlyAccept(ord)) => e.connections = 0
+HGuards == {"G17_succeedsIffSomeAccepts", "G17_winnerAccepted", "G17_attemptOrder", "G17_unresponsiveCostsOneInterval", "G17_honestFailure",
+            "G17_noConnectionAfterDeadline"}
 HGuard(g, e, ord) ==
   CASE g = "G17_succeedsIffSomeAccepts" -> G17_succeedsIffSomeAccepts(e, ord) [] g = "G17_winnerAccepted" -> G17_winnerAccepted(e, ord)
     [] g = "G17_attemptOrder" -> G17_attemptOrder(e, ord) [] g = "G17_unresponsiveCostsOneInterval" -> G17_unresponsiveCostsOneInterval(e, ord)
     [] g = "G17_honestFailure" -> G17_honestFailure(e, ord)
+    [] g = "G17_noConnectionAfterDeadline" -> G17_noConnectionAfterDeadline(e, ord)
 
 AsAddrs(q) == [i \in 1..Len(q) |-> [fam |-> q[i].fam, n |-> q[i].n, beh |-> q[i].beh]]
 TraceInit == l = 1
